@@ -862,6 +862,8 @@ type proc struct {
 	sk      *sink
 	// shape of the next payload (a proc is used by one goroutine at a time); reset to shapeItems by checkConsume
 	shape int
+	// soft limit of the generation this processor was created in (l2Generations)
+	softOfGen uint64
 }
 
 // payload shapes: besides payloads with items, payloads that carry no item at all. While the limiter is not
@@ -889,7 +891,11 @@ func drawShape(rng *rand.Rand) int {
 var signals = []string{"logs", "traces", "metrics", "profiles"}
 
 func mkProc(fac xprocessor.Factory, signal string, lg *zap.Logger, cfg component.Config) (*proc, error) {
-	set := processor.Settings{ID: component.NewID(fac.Type()), TelemetrySettings: componenttest.NewNopTelemetrySettings(), BuildInfo: component.NewDefaultBuildInfo()}
+	return mkProcID(fac, component.NewID(fac.Type()), signal, lg, cfg)
+}
+
+func mkProcID(fac xprocessor.Factory, cid component.ID, signal string, lg *zap.Logger, cfg component.Config) (*proc, error) {
+	set := processor.Settings{ID: cid, TelemetrySettings: componenttest.NewNopTelemetrySettings(), BuildInfo: component.NewDefaultBuildInfo()}
 	set.Logger = lg
 	sk := &sink{}
 	p := &proc{Signal: signal, sk: sk}
@@ -1907,6 +1913,132 @@ func (e *l2env) l2ShareSwitchConcurrent(idx int64, rng *rand.Rand, refuse bool) 
 	c.Nontrivial("L2-share-switch-conc", sigs, rg.Name, refuse, clNames[cl], effNames[eff])
 }
 
+// l2Generations: one factory instance serves several generations of processors (what a configuration
+// reload does: factories live as long as the process, the pipelines are rebuilt). Every generation has its
+// own limits; a generation may reuse the component id of an earlier one, and two ids with different limits
+// may be live at the same time. Every processor must refuse according to the limits IT was created with.
+var genCfgs = []limCfg{
+	{Name: "mib-100/20", MiB: 100, SpikeMiB: 20},
+	{Name: "mib-200/40", MiB: 200, SpikeMiB: 40},
+	{Name: "mib-50/10", MiB: 50, SpikeMiB: 10},
+	{Name: "mib-400/100", MiB: 400, SpikeMiB: 100},
+	{Name: "mib-100/50", MiB: 100, SpikeMiB: 50},
+}
+
+func (e *l2env) l2Generations(idx int64, rng *rand.Rand) {
+	c := e.c
+	e.ctxEnded.Store(false)
+	rg := regimes[1]
+	fac := memorylimiterprocessor.NewFactory()
+	ngen := 2 + rng.Intn(2)
+	sameID := rng.Intn(4) != 0
+	// Generations never overlap in time: all limiters read the one process-wide memory reading hook, so the
+	// harness could not tell which limiter has already seen a new level.
+	const overlap = false
+	var ops []map[string]any
+	wit := func() any {
+		return map[string]any{"layer": "L2-generations", "one_factory": true, "same_component_id": sameID, "generations_overlap": overlap, "ops": append([]map[string]any(nil), ops...)}
+	}
+	type live struct {
+		procs []*proc
+		m     *meter
+	}
+	var prev *live
+	stop := func(l *live) {
+		if l == nil {
+			return
+		}
+		for _, p := range l.procs {
+			_ = safeStop(c, p.comp)
+		}
+		e.done = append(e.done, stopped{l.m, evSeq.Add(1), wit()})
+	}
+	order := rng.Perm(len(genCfgs))
+	c.Eval()
+	for g := 0; g < ngen; g++ {
+		lc := genCfgs[order[g]]
+		soft, hard, _ := lc.limits()
+		cid := component.NewID(fac.Type())
+		if !sameID {
+			cid = component.NewIDWithName(fac.Type(), fmt.Sprintf("g%d", g))
+		}
+		if !overlap {
+			stop(prev)
+			prev = nil
+		}
+		m := &meter{}
+		if overlap && prev != nil {
+			m = prev.m // one process, one memory reading: both generations see the same usage
+		}
+		core := &capCore{onWrite: m.gcLogged}
+		memorylimiter.ReadMemStatsFn = m.read
+		cfg := lc.config(l2Period, rg.SoftIv, rg.HardIv)
+		cur := &live{m: m}
+		first := rng.Intn(len(signals))
+		for i := 0; i < 1+rng.Intn(2); i++ {
+			sig := signals[(first+i)%len(signals)]
+			p, err := mkProcID(fac, cid, sig, zap.New(core), cfg)
+			if err != nil {
+				c.Violation("L2-create", "creating a memory_limiter processor failed: "+err.Error(), wit(), "signal", sig)
+				stop(prev)
+				return
+			}
+			cur.procs = append(cur.procs, p)
+		}
+		ops = append(ops, map[string]any{"generation": g, "id": cid.String(), "config": lc.Name, "processors": len(cur.procs), "op": "create+start"})
+		for _, p := range cur.procs {
+			if err := e.start(p.comp, ctxBackground); err != nil {
+				c.Violation("L2-lifecycle", "Start returned an error: "+err.Error(), wit(), "op", "start")
+			}
+		}
+		// usage levels that tell this generation's limits from any other configuration's: just below and exactly at its soft limit, at its hard limit
+		for _, lv := range []uint64{soft - 1, soft, hard, soft - 1} {
+			m.set(lv, lv)
+			if r := waitReads(m, e.w, 3); r != alive {
+				if r == dead {
+					c.Violation("L2-liveness", "the checker of a newly created generation never measured (witness ticker of the same period fired 3 x 400 times meanwhile)", livenessWit(wit()), "pattern", "generation-"+map[bool]string{true: "same-id", false: "new-id"}[sameID])
+				} else {
+					c.Inconclusive("checker-busy-for-4000-witness-ticks")
+				}
+				stop(cur)
+				stop(prev)
+				return
+			}
+			want := 0
+			if lv >= soft {
+				want = 1
+			}
+			ops = append(ops, map[string]any{"generation": g, "op": "level+consume", "usage": lv, "soft": soft, "hard": hard, "expect_refusing": want == 1})
+			for pi, p := range cur.procs {
+				checkConsume(c, p, fmt.Sprintf("gen%d.%d.%d", idx, g, pi), want, 0, wit)
+			}
+			c.Observe("l2_generation_consumes", int64(len(cur.procs)))
+			if overlap && prev != nil {
+				// the older generation keeps ITS limits
+				psoft := prev.procs[0].softOfGen
+				pw := 0
+				if lv >= psoft {
+					pw = 1
+				}
+				for pi, p := range prev.procs {
+					checkConsume(c, p, fmt.Sprintf("gen%d.%d.old%d", idx, g, pi), pw, 0, wit)
+				}
+				c.Observe("l2_generation_consumes_on_the_older_live_generation", int64(len(prev.procs)))
+			}
+		}
+		for _, p := range cur.procs {
+			p.softOfGen = soft
+		}
+		if overlap {
+			stop(prev)
+		}
+		prev = cur
+		c.Observe("l2_generations", 1)
+	}
+	stop(prev)
+	c.Nontrivial("L2-generations", sameID, overlap, ngen, order[0], order[1])
+}
+
 func runL2(c *driver.Ctx, base *int64) {
 	e := &l2env{c: c, w: newWitness(l2Period)}
 	defer close(e.w.stop)
@@ -1960,6 +2092,16 @@ func runL2(c *driver.Ctx, base *int64) {
 		}
 	}
 	idx += nShareConc
+	nGen := int64(c.N(8, 160))
+	for k := int64(0); k < nGen; k++ {
+		if c.Want(idx + k) {
+			e.l2Generations(idx+k, c.CaseRand(idx+k))
+		}
+		if k%8 == 7 {
+			e.checkNoLateReads(false)
+		}
+	}
+	idx += nGen
 	e.checkNoLateReads(false)
 	// give stopped checkers a last chance to show a late measurement
 	t0 := e.w.ticks.Load()
